@@ -126,6 +126,7 @@ type NodeOpts struct {
 	VersionsTTL  time.Duration
 	InitCheck    bool // run the table's initial refresh (default off)
 	ExtraEntries []enr.Entry
+	NoStart      bool // the caller starts the protocol itself (e.g. through history.Network.Start)
 }
 
 // Node is a full real stack: discv5 + uTP + PortalProtocol on a hub connection.
@@ -203,8 +204,10 @@ func (h *Hub) StartNode(o NodeOpts) (*Node, error) {
 	if err != nil {
 		return nil, err
 	}
-	if err := p.Start(); err != nil {
-		return nil, err
+	if !o.NoStart {
+		if err := p.Start(); err != nil {
+			return nil, err
+		}
 	}
 	return &Node{P: p, Disc: disc, Local: ln, Conn: conn, Utp: utp, Queue: queue, Key: o.Key, VCache: vc, DB: db, Conf: conf}, nil
 }
